@@ -476,8 +476,8 @@ def run(prop, tier, seed):
     else:
         g = list(grid(3, 2, 1, 2, 2, 1))
         r.shuffle(g)
-        g = g[:60000]
-        n_rand, n_dl = 8000, 40
+        g = g[:12000]
+        n_rand, n_dl = 4000, 40
     for c in g:
         add_with_twin(c, "none" if c["start"] == 0 else "epoch", "it")
     for i in range(n_rand):
